@@ -216,6 +216,7 @@ theorem onProposerLastBlock_roles {s s' : St} {prop : Seq} (h : Roles s) (hq : g
         apply h.core.of_setRa (r0 := r0) hg0 (by rfl)
         · intro a ha; exact h.core.succ r0 hr0 a ha
         · intro a ha; cases ha
+        · intro a ha; cases ha
         · intro a _ hs; cases hs
         · intro t a hta hpa
           rw [hp0] at hpa; injection hpa with hpa; subst hpa
@@ -387,6 +388,7 @@ theorem tryUnbond_write_roles {s s1 : St} {a : Addr} {q0 q q1 : Seq} {amt : Nat}
     rw [sm.ras] at hr'
     rw [e1, ha]
     exact noRole_of_flags h.core hg hip his r hr'
+  · exact Or.inl (e4.trans hn)
   · intro hns
     rw [e4, hn] at hns
     have := h.core.optOut q0 (getSeq_mem hg) hns
@@ -421,6 +423,7 @@ theorem RolesCore.of_nqInsert {s : St} {a : Addr} {T : Nat} {q : Seq} {r : Rolla
   · exact h.uniq.of_eq rfl rfl
   · exact h.prop
   · exact h.succ
+  · exact h.succFresh
   · exact h.ne
   · exact h.optOut
   · intro t a' hta
@@ -478,6 +481,16 @@ theorem unbond_roles {s s' : St} {a : Addr} (h : Roles s) (e : unbond s a = .ok 
               have c1 : RolesCore (setSeq s { q with optedIn := false, notice := some (s.t + s.p.noticePeriod) }) := by
                 apply h.core.of_setSeq hg (by rfl) (by rfl)
                 · intro hb; exact Or.inl hb
+                · right
+                  intro x hx hsx
+                  obtain ⟨q2, hq2, _, hr2⟩ := h.core.succ x hx _ hsx
+                  rw [show ({ q with optedIn := false, notice := some (s.t + s.p.noticePeriod) } : Seq).addr = a from hqa, hg] at hq2
+                  injection hq2 with hq2; subst hq2
+                  have hxr : x = r := by
+                    have := getRa_of_mem h.core.uniq.ids hx
+                    rw [← hr2, hgr] at this; injection this with this; exact this.symm
+                  subst hxr
+                  exact h.core.ne x hx a hpr (by rw [← hqa]; exact hsx)
                 · intro _; rfl
                 · intro t hta
                   obtain ⟨q3, _, hq3, hn3, _, _⟩ := h.core.nq t _ hta
@@ -514,6 +527,7 @@ theorem optIn_roles {s s' : St} {a : Addr} {v : Bool} (h : Roles s) (e : optIn s
       have c1 : RolesCore (setSeq s { q with optedIn := v }) := by
         apply h.core.of_setSeq hg (by rfl) (by rfl)
         · intro hb; exact Or.inl hb
+        · exact Or.inl rfl
         · intro hc; rw [show ({ q with optedIn := v } : Seq).notice = none from hnn] at hc; cases hc
         · intro t hta
           obtain ⟨q3, _, hq3, hn3, _, _⟩ := h.core.nq t _ hta
@@ -608,6 +622,7 @@ theorem kick_roles {s s' : St} {a : Addr} (h : Roles s) (e : kick s a = .ok s') 
                   have c4 : RolesCore (setSeq s3 { kicker with optedIn := true }) := by
                     apply h3'.core.of_setSeq hq3 _ (by exact hr3.symm)
                     · intro _; exact Or.inl hkb.1
+                    · exact Or.inl hn3.symm
                     · intro hc; rw [show ({ kicker with optedIn := true } : Seq).notice = none from hkn] at hc; cases hc
                     · intro t hta
                       obtain ⟨q5, _, hq5, hn5, _, _⟩ := h3'.core.nq t _ hta
